@@ -63,7 +63,6 @@ CATALOGUE: list[tuple] = [
     # ---- templates
     ("choice-template-no-clear", ["C01"], CHOICE, "                    gen.writeln(\"state.restore()\")\n                    gen.writeln(f\"{tmp_pairs}.clear()\")", "                    gen.writeln(\"state.restore()\")", "fire", "Choice.generate"),
     ("optional-template-no-restore", ["C01"], POSTFIX, "        with gen.block():\n            gen.writeln(\"state.restore()\")\n            gen.writeln(f\"{tmp_pairs}.clear()\")\n\n        gen.writeln(f\"{matched_var} = True\")", "        with gen.block():\n            gen.writeln(f\"{tmp_pairs}.clear()\")\n\n        gen.writeln(f\"{matched_var} = True\")", "fire", "Optional.generate"),
-    ("repeat-template-trivia-not-rewound", ["C01", "C04"], POSTFIX, "                gen.writeln(\"state.restore()\")\n                gen.writeln(f\"state.pos = {trivia_pos}\")\n                # Always succeed", "                gen.writeln(\"state.restore()\")\n                # Always succeed", "fire", "Repeat.generate"),
     ("string-template-raw-hole", ["C01"], TERMINALS, "        lit_repr = repr(self.value)\n        gen.writeln(f\"if state.input.startswith({lit_repr}, state.pos):\")", "        gen.writeln(f\"if state.input.startswith('{self.value}', state.pos):\")", "fire", "String.generate"),
     ("range-template-ignorecase", ["C01", "C12"], TERMINALS, "        re_var = gen.constant(\"RE\", f\"re.compile({pattern!r})\")", "        re_var = gen.constant(\"RE\", f\"re.compile({pattern!r}, re.I)\")", "fire", "Range"),
     ("rule-template-tag-pop-always", ["C01", "C06"], RULE, "                gen.writeln(f\"if {matched_var} and state.tag_stack:\")", "                gen.writeln(\"if state.tag_stack:\")", "fire", "Rule.generate"),
@@ -74,11 +73,11 @@ CATALOGUE: list[tuple] = [
     ("checkpoint-forgets-rule-stack", ["C05", "C09"], STATE, "        self.user_stack.snapshot()\n        self.rule_stack.snapshot()\n        self.atomic_depth.snapshot()", "        self.user_stack.snapshot()\n        self.atomic_depth.snapshot()", "fire", "checkpoint"),
     ("stack-pop-no-bookkeeping-balance", ["C09"], STACK, "                self.lengths[-1] = (item_count, remained_count - 1)\n                self.popped.append(popped)", "                self.lengths[-1] = (item_count, remained_count - 1)", "fire", "Stack.pop"),
     ("stack-drop-absolute-index", ["C09"], STACK, "        size = len(self.popped)\n        del self.popped[size - dropped : size - keep]", "        del self.popped[dropped - keep :]", "fire", "Stack.drop_snapshot"),
-    ("parse-trivia-ws-unbracketed", ["C04", "C08"], STATE, "                if whitespace_rule:\n                    self.checkpoint()\n                    if whitespace_rule.parse(self, children):\n                        matched = True\n                        some = True\n                        pairs.extend(children)\n                        self.ok()\n                    else:\n                        self.restore()\n                    children.clear()", "                if whitespace_rule:\n                    if whitespace_rule.parse(self, children):\n                        matched = True\n                        some = True\n                        pairs.extend(children)\n                    children.clear()", "fire", "parse_trivia"),
+    ("parse-trivia-ws-unbracketed", ["C04", "C08"], STATE, "                if whitespace_rule:\n                    self.checkpoint()\n                    if whitespace_rule.parse(self, children):\n                        some = True\n                        pairs.extend(children)\n                        self.ok()\n                        children.clear()\n                        # pest: WHITESPACE* ~ (COMMENT ~ WHITESPACE*)*\n                        continue\n                    self.restore()\n                    children.clear()", "                if whitespace_rule:\n                    if whitespace_rule.parse(self, children):\n                        some = True\n                        pairs.extend(children)\n                        children.clear()\n                        # pest: WHITESPACE* ~ (COMMENT ~ WHITESPACE*)*\n                        continue\n                    children.clear()", "fire", "parse_trivia"),
     ("fail-explicit-global", ["C15"], STATE, "        if pos > self.furthest_pos:\n            self.furthest_pos = pos", "        if pos > self.furthest_pos:\n            ParserState.LAST = pos\n            self.furthest_pos = pos", "fire", "ParserState.fail"),
     # ---- front end
     ("scanner-error-index", ["C11"], SCANNER, "        value = self.grammar[self.pos : self.pos + 1]", "        value = self.grammar[self.pos]", "fire", "Scanner.error"),
-    ("tag-regex-typo", ["C10"], SCANNER, 'RE_TAG = re.compile(r"#[_a-zA-Z][_a-zA-Z0-9]*(?=\\s*=)")', 'RE_TAG = re.compile(r"#[_a-zA-z][_a-zA-Z0-9]*(?=\\s*=)")', "fire", "RE_TAG"),
+    ("tag-regex-typo", ["C10"], SCANNER, 'RE_TAG = re.compile(r"#[_a-zA-Z][_a-zA-Z0-9]*")', 'RE_TAG = re.compile(r"#[_a-zA-z][_a-zA-Z0-9]*")', "fire", "RE_TAG"),
     ("keyword-no-boundary", ["C10"], SCANNER, 'RE_POP = re.compile(r"POP(?![_a-zA-Z0-9])")', 'RE_POP = re.compile(r"POP")', "fire", "RE_POP"),
     ("repeat-minmax-swapped", ["C10"], GPARSER, "            return RepeatMinMax(\n                expr, self.parse_int(number), self.parse_int(stop)\n            )", "            return RepeatMinMax(\n                expr, self.parse_int(stop), self.parse_int(number)\n            )", "fire", ""),
     ("predicates-swapped", ["C10"], GPARSER, "            left = PositivePredicate(self.parse_expression(PRECEDENCE_PREFIX), tag=tag)", "            left = NegativePredicate(self.parse_expression(PRECEDENCE_PREFIX), tag=tag)", "fire", ""),
@@ -103,7 +102,7 @@ CATALOGUE: list[tuple] = [
     ("S-pratt-bound-ifexp", ["C18"], PRATT, "prec + (0 if right_assoc else 1)", "(prec if right_assoc else prec + 1)", "silent", ""),
     # ---- rules added after the seeded round
     ("order-empty-literal", ["C02"], CHOICE, "        if isinstance(a, UnicodePropertyRule) or not b.value:", "        if isinstance(a, UnicodePropertyRule):", "fire", ""),
-    ("order-range-end-exclusive", ["C02"], CHOICE, "        return any(a.start <= v <= a.end for v in variants if len(v) == 1)", "        return any(a.start <= v < a.end for v in variants if len(v) == 1)", "fire", "is_order_independent"),
+    ("order-range-end-exclusive", ["C02"], CHOICE, "        return a.start <= b.value[:1] <= a.end", "        return a.start <= b.value[:1] < a.end", "fire", "O12"),
     ("skip-no-visited-set", ["C11"], SKIPPERS, "        if rule and expr.value not in seen:", "        if rule:", "fire", "GRAPH-RECURSION"),
     ("parse-int-unbounded", ["C11"], GPARSER, "        if not -(2**31) <= value < 2**32:\n            raise PestGrammarSyntaxError(\"number out of range\", token=token)\n        return value", "        return value", "fire", "NUM-BOUND"),
     ("from-grammar-no-recursion-guard", ["C11"], PARSER, "        except RecursionError as err:", "        except MemoryError as err:", "fire", "RecursionError"),
@@ -115,7 +114,7 @@ CATALOGUE: list[tuple] = [
     ("checkpoint-conditional-snapshot", ["C05", "C09"], STATE, "        self.user_stack.snapshot()\n        self.rule_stack.snapshot()", "        if not self.user_stack.empty():\n            self.user_stack.snapshot()\n        self.rule_stack.snapshot()", "fire", "ParserState.checkpoint"),
     ("pratt-prefix-max", ["C18"], PRATT, "            prec = self.PREFIX_OPS[token.name]", "            prec = max(self.PREFIX_OPS[token.name], min_prec)", "fire", "prefix"),
     ("S-merge-branches-inverted", ["C12"], CHOICE, "        if not merged or s > merged[-1][1] + 1:\n            merged.append([s, e])\n        else:\n            merged[-1][1] = max(merged[-1][1], e)", "        if merged and s <= merged[-1][1] + 1:\n            merged[-1][1] = max(merged[-1][1], e)\n        else:\n            merged.append([s, e])", "silent", ""),
-    ("S-order-overlap-ord-form", ["C02"], CHOICE, "        return any(a.start <= v <= a.end for v in variants if len(v) == 1)", "        return any(ord(a.start) <= ord(v) <= ord(a.end) for v in variants if len(v) == 1)", "silent", ""),
+    ("S-order-overlap-ord-form", ["C02"], CHOICE, "        return a.start <= b.value[:1] <= a.end", "        first = b.value[:1]\n        return not (first < a.start or first > a.end)", "silent", ""),
     ("S-error-context-named-flag", ["C13"], EXC, "    lines = text.splitlines(keepends=True)\n    cumulative_length = 0", "    lines = text.splitlines(True)\n    cumulative_length = 0", "silent-or-undecided", ""),  # the edit is inside the slice a SAFE triage entry was written for: exit 2 (re-triage) is accepted
     ("S-skipuntil-min-builtin", ["C02", "C16"], TERMINALS, "            if pos != -1 and (best_index is None or pos < best_index):\n                best_index = pos", "            if pos != -1:\n                best_index = pos if best_index is None else min(best_index, pos)", "silent", ""),
     ("scanner-no-trivia-before-assign", ["C10"], SCANNER, "        self.skip_trivia()\n\n        if self.peek() == \"=\":\n            self.emit(TokenKind.ASSIGN_OP, self.next())\n        else:\n            return self.error(\"expected the assignment operator\")", "        if self.peek() == \"=\":\n            self.emit(TokenKind.ASSIGN_OP, self.next())\n        else:\n            return self.error(\"expected the assignment operator\")", "fire", "TRIVIA"),
